@@ -27,7 +27,7 @@ def prop(pid, rules, explanation, decided, declined, assumptions=()):
 
 
 prop('C09',
-     [('R00', cf.r00_helper_semantics), ('R05', cf.r05_status_ownership), ('R06', cf.r06_round_monotone), ('R02', cf.r02_elect_sites), ('R03', bt.r03_batch_cap), ('R03c', bt.r03c_single_defeat_guard)],
+     [('R00', cf.r00_helper_semantics), ('R05', cf.r05_status_ownership), ('R06', cf.r06_round_monotone), ('R02', cf.r02_elect_sites), ('R03', bt.r03_batch_cap), ('R03c', bt.r03c_single_defeat_guard), ('R13', qt.r13_quota)],
      'Static analysis of /repo source. Status fields are written only inside Candidate; every elect/defeat/'
      'unpend/unelect receiver is drawn (candidate-derivation analysis through the rule-local helpers) from the '
      'status set the transition starts from; unelect only in QPQ on elected candidates; E.round only '
@@ -40,7 +40,7 @@ prop('C09',
 
 prop('C01',
      [('R00', cf.r00_helper_semantics), ('R01', cf.r01_total_sweep), ('R02', cf.r02_elect_sites), ('R03', bt.r03_batch_cap), ('R03b', bt.r03b_defeat_remaining), ('R03c', bt.r03c_single_defeat_guard), ('R04', lp.r04_loops), ('R05', cf.r05_status_ownership),
-      ('R38', rr.r38_first_and_last_action), ('R51', nm.r51_no_unbound_names)],
+      ('R38', rr.r38_first_and_last_action), ('R51', nm.r51_no_unbound_names), ('R28', ps.r28_strip_complete)],
      'Static analysis of /repo source over the count() of every registered rule class (CFG path rules with a small '
      'path-sensitive fact domain, candidate-derivation dataflow): every path to the end of count() completes a total '
      'elect-or-defeat sweep; every elect site is justified by a quota test, a seat guard or a pending receiver; every batch '
@@ -98,7 +98,7 @@ prop('C18',
       'status is changed only by Candidate.elect/defeat, which log (R05)'],
      ['textual agreement of report/dump/JSON figures (they print str() of the same stored object)'])
 prop('C15',
-     [('R26', ps.r26_cid_sanitiser), ('R27', ps.r27_typecode_capacity), ('R28', ps.r28_strip_complete),
+     [('R26', ps.r26_cid_sanitiser), ('R26d', ps.r26d_tokenizer_precedence), ('R27', ps.r27_typecode_capacity), ('R28', ps.r28_strip_complete),
       ('R29', ps.r29_ballot_count_pairing), ('R30', ps.r30_validation)],
      'Static analysis of droop/profile.py: every candidate ID that enters a set, an order, a name table or a ranking '
      'flows (reaching definitions) from getCid or a 1..nCand range; the ranking array item type can hold every valid ID '
@@ -182,7 +182,8 @@ prop('C06',
      ['"tally = sum of ballot values" and "values stay in [0,1]" as runtime invariants'])
 
 prop('C10',
-     [('R19', gr.r19_multiplier_last), ('R20', gr.r20_order_free_loops), ('R21', va.r21_scale_rounding), ('R29', ps.r29_ballot_count_pairing)],
+     [('R19', gr.r19_multiplier_last), ('R20', gr.r20_order_free_loops), ('R21', va.r21_scale_rounding), ('R29', ps.r29_ballot_count_pairing),
+      ('R26d', ps.r26d_tokenizer_precedence)],
      'Static analysis: the ballot multiplier only ever multiplies a finished (already rounded) per-ballot quantity and the '
      'product only feeds additive accumulators; no weight or keep computation has the multiplier among its inputs; ballot '
      'loops only accumulate (no break/return, no plain store to shared state); additions are exact (R21), so neither the '
@@ -191,7 +192,7 @@ prop('C10',
       'the ballot total is built line by line from the kept multipliers only (R29)'],
      ['equality of whole records under re-presentation (metamorphic)', 'tokenizer layout/comment/nickname behaviour'])
 prop('C08',
-     [('R00', cf.r00_helper_semantics), ('R10', mk.r10_residual_pairing), ('R11', mk.r11_keep_factors), ('R12', mk.r12_iteration_exits),
+     [('R00', cf.r00_helper_semantics), ('R10', mk.r10_residual_pairing), ('R10c', mk.r10c_keep_split), ('R11', mk.r11_keep_factors), ('R12', mk.r12_iteration_exits),
       ('R14', qt.r14_elect_before_exclude), ('R04', lp.r04_loops), ('R21', va.r21_scale_rounding)],
      'Static analysis of meek.py and meek_prf.py: in every block of the distribution loops the expressions credited to a '
      'tally are exactly those debited from the ballot residual, residuals start at the multiplier and are summed once per '
@@ -204,7 +205,8 @@ prop('C08',
      ['0 < kf <= 1 for elected candidates and non-negativity of tallies: numeric'])
 
 prop('C04',
-     [('R00', cf.r00_helper_semantics), ('R13', qt.r13_quota), ('R14', qt.r14_elect_before_exclude), ('R02', cf.r02_elect_sites), ('R12', mk.r12_iteration_exits)],
+     [('R00', cf.r00_helper_semantics), ('R13', qt.r13_quota), ('R14', qt.r14_elect_before_exclude), ('R02', cf.r02_elect_sites), ('R12', mk.r12_iteration_exits),
+      ('R21', va.r21_scale_rounding)],
      'Static analysis of every rule: each quota expression, canonicalised, equals the form the property prescribes for the '
      'branch it is on (exact / truncated + one unit / integer floor + 1 / Meek from the votes still credited / QPQ); the '
      'election comparison is > exactly on exact branches and >= otherwise; epsilon is read only where the arithmetic has '
@@ -216,7 +218,7 @@ prop('C04',
       'the Minneapolis defeat-before-election step is taken as the listed exception of R14'])
 
 prop('C02',
-     [('R00', cf.r00_helper_semantics), ('R07', gr.r07_transfer_once), ('R08', gr.r08_reset_pairing), ('R09', gr.r09_reweighting), ('R10', mk.r10_residual_pairing), ('R10b', mk.r10b_redistribute_before_record),
+     [('R00', cf.r00_helper_semantics), ('R07', gr.r07_transfer_once), ('R08', gr.r08_reset_pairing), ('R09', gr.r09_reweighting), ('R10', mk.r10_residual_pairing), ('R10b', mk.r10b_redistribute_before_record), ('R10c', mk.r10c_keep_split), ('R29', ps.r29_ballot_count_pairing),
       ('R19', gr.r19_multiplier_last), ('R21', va.r21_scale_rounding), ('R22', va.r22_closure)],
      'Static analysis of the bookkeeping shape that conservation rests on: a transferred ballot is credited exactly once '
      '(candidate or non-transferable total); a tally is reset only after all its ballots were passed on; transfer values '
